@@ -273,6 +273,10 @@ class APIConnection:
         Safe to call multiple times.
         """
         if self.connection_state is CONNECTION_STATE_CLOSED:
+            # A connect phase that was completing while the connection
+            # was closed may have attached a socket, frame helper or
+            # timer after the close, make sure they are released as well
+            self._release_resources()
             return
         was_connected = self.is_connected
         self._set_connection_state(CONNECTION_STATE_CLOSED)
@@ -291,6 +295,14 @@ class APIConnection:
         self._set_start_connect_future()
         self._set_finish_connect_future()
 
+        self._release_resources()
+
+        if (on_stop := self.on_stop) is not None and was_connected:
+            self.on_stop = None
+            on_stop(self._expected_disconnect)
+
+    def _release_resources(self) -> None:
+        """Close the frame helper and the socket and cancel the keep alive timers."""
         if self._frame_helper is not None:
             self._frame_helper.close()
             self._frame_helper = None
@@ -305,9 +317,17 @@ class APIConnection:
             self._ping_timer.cancel()
             self._ping_timer = None
 
-        if (on_stop := self.on_stop) is not None and was_connected:
-            self.on_stop = None
-            on_stop(self._expected_disconnect)
+    def _raise_if_closed(self, action: str) -> None:
+        """Fail a connect phase that completed while the connection was being closed.
+
+        The interrupt is delivered one event loop iteration after the close,
+        if the phase completes in between the close must not be undone.
+        """
+        if self.connection_state is CONNECTION_STATE_CLOSED:
+            self._cleanup()
+            raise self._wrap_fatal_connection_exception(
+                action, ConnectionInterruptedError()
+            )
 
     def set_debug(self, enable: bool) -> None:
         """Enable or disable debug logging."""
@@ -466,6 +486,8 @@ class APIConnection:
             raise HandshakeAPIError(f"Handshake failed: {err}") from err
         finally:
             handshake_handle.cancel()
+        if self.connection_state is CONNECTION_STATE_CLOSED:
+            raise ConnectionInterruptedError
         self._set_connection_state(CONNECTION_STATE_HANDSHAKE_COMPLETE)
 
     async def _connect_hello_login(self, login: bool) -> None:
@@ -614,6 +636,7 @@ class APIConnection:
             raise self._wrap_fatal_connection_exception("starting", ex)
         finally:
             self._set_start_connect_future()
+        self._raise_if_closed("starting")
         self._set_connection_state(CONNECTION_STATE_SOCKET_OPENED)
 
     def _set_start_connect_future(self) -> None:
@@ -681,6 +704,7 @@ class APIConnection:
             raise self._wrap_fatal_connection_exception("finishing", ex)
         finally:
             self._set_finish_connect_future()
+        self._raise_if_closed("finishing")
         self._set_connection_state(CONNECTION_STATE_CONNECTED)
 
     def _set_finish_connect_future(self) -> None:
